@@ -174,6 +174,7 @@ def run_impl(sc):
         snmod.random = saved_mod
         pyrandom.setstate(saved_state)
     return dict(steps=[[op, sn] for op, sn in net.rlog], choices=list(shim.log), crash=crash,
+                iterations=int(sim.iteration),
                 energies=[float(ev.energy_delivered) for ev in evs])
 
 
@@ -293,6 +294,11 @@ def monitor(case):
                     return "%s: session %r vanished (not its Unplug event, not an early departure of a satisfied EV)" % (where, x)
                 if op[0] == "P":
                     early_unplug += 1
+        if op[0] == "P":
+            n_left = len([x for x in pre_present if x not in present])
+            n_adm = len([x for x in conn if x in pre_queue])
+            if n_left != n_adm:
+                return "%s: %d EVs were sent away early but %d waiting EVs were admitted" % (where, n_left, n_adm)
         if op[0] == "P" and sc["early"]:
             stay = [x for x in pre_occ if x is not None and x in op[1] and x in conn]
             if stay and queue:
@@ -325,6 +331,9 @@ def monitor(case):
             return "%s: early_unplug=%d, %d early departures observed" % (where, sn["early_unplug"], early_unplug)
         if sn["swaps"] != swaps:
             return "%s: swaps=%d, %d admissions from the queue observed" % (where, sn["swaps"], swaps)
+    n_post = sum(1 for op, _ in impl["steps"] if op[0] == "P")
+    if n_post != impl.get("iterations", n_post):
+        return "post_charging_update was called %d times in %d periods" % (n_post, impl["iterations"])
     if sorted(arrived) != sorted(SESS0 + s["k"] for s in sc["sessions"]):
         return "not every session was plugged in"
     if sorted(departed_ev) != sorted(arrived):
